@@ -11,8 +11,8 @@ META = {
     "text": "Kernel-checked over a Gallina model of Layer / LayerContents and the layer part of Font::save / Font::load "
             "(including the uniqueness / plain-name checks at load): the invariant (layer names unique, exactly one default "
             "layer, first, in 'glyphs', only it may be called public.default, glyph map / file-name index / taken-set in step, "
-            "file names and directories distinct ignoring case, names valid) holds initially, after loading a tree without "
-            "case-insensitive clashes, and is preserved by every operation except raw Layer::entry access (refuted by witness), "
+            "file names and directories distinct ignoring case, names valid) holds initially, after every successful load "
+            "(the checks at load are part of the model), and is preserved by every operation except raw Layer::entry access (refuted by witness), "
             "hence after every history; an operation that reports an error leaves the state unchanged; saving and loading a "
             "consistent font succeeds and reproduces exactly its layers and glyphs; the only reachable panics are the documented "
             "99-tries panic and Glyph::new on an invalid name. The model is tied to the code on every run: tries of all "
